@@ -56,7 +56,7 @@ class Check(PropertyCheck):
 
     def run_impl(self, case):
         import bellows.types as t
-        from bellows.exception import EzspError
+        from bellows.exception import EzspError, InvalidCommandError
         v, seq = case
         app = self._app(v)
         # what _watchdog_loop does when it starts
@@ -72,7 +72,12 @@ class Check(PropertyCheck):
             if a == 1:
                 raise asyncio.TimeoutError()
             if a == 2:
-                raise EzspError("scripted")
+                # the EZSP errors the real command path produces: "EZSP is not running" (EzspError) and the NCP answering
+                # the keep-alive with an invalidCommand frame (InvalidCommandError, raised by ProtocolHandler.__call__)
+                cur["n"] = cur.get("n", 0) + 1
+                if cur["n"] % 2:
+                    raise InvalidCommandError(f"{name} command is an invalidCommand, was sent under 0 sequence number: ERROR_INVALID_FRAME_ID")
+                raise EzspError("EZSP is not running")
             if name == "nop":
                 return []
             if name in ("readCounters", "readAndClearCounters"):
@@ -127,7 +132,7 @@ class Check(PropertyCheck):
             want = failed and streak > A.MAX_WATCHDOG_FAILURES
             if bool(raised) != want:
                 return f"feed #{k}: raised={raised} but failed={failed}, consecutive failures={streak}"
-            if raised and raised not in ("TimeoutError", "EzspError", "CancelledError"):
+            if raised and raised not in ("TimeoutError", "EzspError", "InvalidCommandError", "CancelledError"):
                 return f"feed #{k}: unexpected exception {raised}"
             if v == 4:
                 exp = ["nop"]
